@@ -70,6 +70,18 @@ def dispatch(chk, P):
         c = blk.get("case")
         if isinstance(c, list) and c[0] == "enum":
             caseblocks[c[1].split("::")[-1]] = b
+    # roles of the locals (never their names): id lists / next times are the out-arguments of calcTimeOfNextScheduledEvent / ...Report,
+    # lowestModified / shouldTerminate are the two arguments of the one reinitialize call
+    role = {}
+    for call, kid, kt in (("calcTimeOfNextScheduledEvent", "scheduledEventIds", "nextScheduledEvent"), ("calcTimeOfNextScheduledReport", "scheduledReportIds", "nextScheduledReport")):
+        cs0 = [e for _, _, e in f.calls("SimTK::System::" + call)]
+        chk.judge(len(cs0) == 1 and var_of(call_args(cs0[0])[1]) and var_of(call_args(cs0[0])[2]), "SWITCH", "%s:one-call-with-out-arguments" % call, f.loc, "found %d" % len(cs0))
+        if len(cs0) == 1:
+            role[kt], role[kid] = var_of(call_args(cs0[0])[1]), var_of(call_args(cs0[0])[2])
+    r0 = [e for _, _, e in f.calls("SimTK::Integrator::reinitialize")]
+    if len(r0) == 1 and len(call_args(r0[0])) >= 2:
+        role["lowestModified"], role["shouldTerminate"] = var_of(call_args(r0[0])[0]), var_of(call_args(r0[0])[1])
+    chk.judge(len({v for v in role.values() if v}) == 6, "SWITCH", "local-roles-resolved", f.loc, "roles: %s" % role)
     hcalls = [(b, i, e) for b, i, e in f.calls("SimTK::System::handleEvents")]
     chk.judge(len(hcalls) == len(DISPATCH), "SWITCH", "handleEvents-sites=%d" % len(DISPATCH), f.loc, "found %d" % len(hcalls))
     reinit = [(b, i, e) for b, i, e in f.calls("SimTK::Integrator::reinitialize")]
@@ -96,14 +108,14 @@ def dispatch(chk, P):
         if ids == "empty":
             okid = isinstance(a[2], list) and a[2][0] == "ctor" and not a[2][2]
         elif ids.startswith("var:"):
-            okid = var_of(a[2]) == ids[4:]
+            okid = var_of(a[2]) is not None and var_of(a[2]) == role.get(ids[4:])
         else:
             okid = bool(sx_find(a[2], lambda y: y[0] == "call" and y[1].endswith("::" + ids[5:])))
         chk.judge(okid, "SWITCH", "case:%s:ids=%s" % (status, ids), site, "id list passed is %s" % sx_str(a[2]))
         rv = var_of(a[4]) if len(a) > 4 else None
         # results -> lowestModified / shouldTerminate, same results object
-        lm = [w for bb, _, w in f.events(lambda w: bool(ev_write(w)) and var_of(ev_write(w)[0]) == "lowestModified") if bb == b]
-        st = [w for bb, _, w in f.events(lambda w: bool(ev_write(w)) and var_of(ev_write(w)[0]) == "shouldTerminate") if bb == b]
+        lm = [w for bb, _, w in f.events(lambda w: bool(ev_write(w)) and var_of(ev_write(w)[0]) is not None and var_of(ev_write(w)[0]) == role.get("lowestModified")) if bb == b]
+        st = [w for bb, _, w in f.events(lambda w: bool(ev_write(w)) and var_of(ev_write(w)[0]) is not None and var_of(ev_write(w)[0]) == role.get("shouldTerminate")) if bb == b]
         ok1 = len(lm) == 1 and bool(sx_find(ev_write(lm[0])[2], lambda y: y[0] == "call" and y[1].endswith("::getLowestModifiedStage") and var_of(y[2]) == rv))
         ok2 = len(st) == 1 and bool(sx_find(ev_write(st[0])[2], lambda y: y[0] == "call" and y[1].endswith("::getExitStatus") and var_of(y[2]) == rv)) and \
             "SimTK::HandleEventsResults::ShouldTerminate" in sx_enums(ev_write(st[0])[2])
@@ -117,21 +129,24 @@ def dispatch(chk, P):
                       "integration must restart from the state the handlers produced: reinitialize() on every path after handleEvents", p1 or p2)
     if reinit:
         a = call_args(reinit[0][2])
-        chk.judge(var_of(a[0]) == "lowestModified" and var_of(a[1]) == "shouldTerminate", "SWITCH", "reinitialize(lowestModified,shouldTerminate)", f.loc,
-                  "reinitialize receives both results")
+        # both are locals declared before the loop and written only from handler results (checked per case above) or initialised
+        dl = {d["var"]: d for _, _, d in f.events(lambda d: d["k"] == "decl")}
+        chk.judge(var_of(a[0]) in dl and var_of(a[1]) in dl and "Stage" in str(dl[var_of(a[0])].get("ty", "")) and str(dl[var_of(a[1])].get("ty", "")) == "bool", "SWITCH",
+                  "reinitialize(lowestModified,shouldTerminate)", f.loc, "reinitialize receives the Stage and bool locals that the cases fill from the handler results")
     # scheduled reports
     rep = [(b, i, e) for b, i, e in f.calls("SimTK::System::reportEvents")]
     chk.judge(len(rep) == 1 and "ReachedReportTime" in caseblocks and caseblocks["ReachedReportTime"] in dom.get(rep[0][0], ()), "SWITCH", "case:ReachedReportTime:reportEvents", f.loc,
               "scheduled reports are dispatched in the ReachedReportTime case")
     if rep:
         a = call_args(rep[0][2])
-        chk.judge([x.split("::")[-1] for x in sx_enums(a[1])] == ["Scheduled"] and var_of(a[2]) == "scheduledReportIds", "SWITCH", "case:ReachedReportTime:cause+ids", f.loc,
+        chk.judge([x.split("::")[-1] for x in sx_enums(a[1])] == ["Scheduled"] and var_of(a[2]) is not None and var_of(a[2]) == role.get("scheduledReportIds"), "SWITCH", "case:ReachedReportTime:cause+ids", f.loc,
                   "reportEvents(state, Scheduled, scheduledReportIds)")
     # the id lists come from the matching calcTimeOfNextScheduled* call, the times feed stepTo
     for call, ids, tvar in (("calcTimeOfNextScheduledEvent", "scheduledEventIds", "nextScheduledEvent"), ("calcTimeOfNextScheduledReport", "scheduledReportIds", "nextScheduledReport")):
         cs = [e for _, _, e in f.calls("SimTK::System::" + call)]
-        chk.judge(len(cs) == 1 and var_of(call_args(cs[0])[1]) == tvar and var_of(call_args(cs[0])[2]) == ids, "SWITCH", "%s->(%s,%s)" % (call, tvar, ids), f.loc,
-                  "next time and id list obtained together")
+        chk.judge(len(cs) == 1 and role.get(tvar) and role.get(ids) and role[tvar] != role[ids] and
+                  len({role.get(k) for k in ("scheduledEventIds", "scheduledReportIds", "nextScheduledEvent", "nextScheduledReport")}) == 4, "SWITCH", "%s->(%s,%s)" % (call, tvar, ids), f.loc,
+                  "next time and id list obtained together, in variables of their own")
     st = [e for _, _, e in f.calls("SimTK::Integrator::stepTo")]
     if st:
         a = call_args(st[0])
@@ -141,7 +156,7 @@ def dispatch(chk, P):
             c = sx_find(d[0]["init"], lambda y: y[0] == "call" and y[1].endswith("std::min")) if d else []
             return bool(c) and sorted(var_of(z) or "?" for z in c[0][3]) == sorted(names)
         tparam = f.d["params"][0][0]
-        chk.judge(mins(rd, ["nextScheduledReport", tparam]) and mins(ed, ["nextScheduledEvent", tparam]), "SWITCH", "stepTo(min(report,t),min(event,t))", f.loc,
+        chk.judge(mins(rd, [role.get("nextScheduledReport") or "?r", tparam]) and mins(ed, [role.get("nextScheduledEvent") or "?e", tparam]), "SWITCH", "stepTo(min(report,t),min(event,t))", f.loc,
                   "the integrator is asked to stop at the next scheduled report / event (or the requested time)")
 
 
@@ -324,7 +339,7 @@ def ties(chk, P):
             ids = f.d["params"][2][0]
             def cmp_region(op):
                 reg = set()
-                for g in guard_blocks(f, lambda c: bool(sx_find(c, lambda y: y[0] == "op" and y[1] == op and var_of(y[2]) == "time" and var_of(y[3]) == tn)), 0):
+                for g in guard_blocks(f, lambda c: bool(sx_find(c, lambda y: y[0] == "op" and y[1] == op and var_of(y[2]) not in (None, tn) and var_of(y[3]) == tn)), 0):
                     dom = f.dominators()
                     reg |= {x for x in dom if g in dom[x]}
                 return reg
